@@ -127,7 +127,7 @@ def gen_definition(rng, *, rational=True, max_states=5, max_controls=3, max_cal=
         "dt": "dt", "state": state, "control": control, "calibration": cal,
         "state_model": sm, "sensors": sensors,
         "process_noise": {u: rng.choice([0.25, 0.5, 1.0, 2.0, 0.125, 2.5e-7, 4e-10, 1e-3, 0.0, 0]) for u in control},
-        "sensor_noise": {k: {r: rng.choice([0.25, 0.5, 1.0, 2.0, 0.0625]) for r in rd} for k, rd in sensors.items()},
+        "sensor_noise": {k: {r: rng.choice([0.25, 0.5, 1.0, 2.0, 0.0625, 0.25, 1.0, 4e-12, 1e-10]) for r in rd} for k, rd in sensors.items()},
         "calibration_map": cmap,
         "rational": rational,
     }
@@ -152,6 +152,16 @@ def function_coverage_definitions():
                     "sensors": {"gps": {"z": fn(grp[0], powi(var("m"), 2)), "alt": add(var("m"), var(f"w_{grp[1]}"))}},
                     "process_noise": {"u": 0.25}, "sensor_noise": {"gps": {"z": 0.5, "alt": 1.0}},
                     "calibration_map": {"c": -0.75}, "rational": False})
+    # numerically delicate but well-conditioned expressions (an algebraically "equal" rewrite such as expand() ruins them)
+    # and a sign-dependent expression sqrt(v^2) evaluated at negative v (differentiating under a positivity assumption ruins it)
+    sm = {"p6": add(var("x"), mul(var("dt"), mul(var("v"), powi(add(var("x"), mul(num(-1), var("y"))), 6)))),
+          "g": add(var("y"), mul(var("dt"), fn("exp", mul(num(-1), powi(add(var("x"), mul(num(-1), var("y"))), 2))))),
+          "sv": add(var("sv"), mul(var("dt"), mul(var("c"), mul(var("v"), fn("sqrt", powi(var("v"), 2)))))),
+          "x": add(var("x"), mul(var("dt"), var("u"))), "y": var("y"), "v": var("v")}
+    out.append({"dt": "dt", "state": ["p6", "g", "sv", "x", "y", "v"], "control": ["u"], "calibration": ["c"], "state_model": sm,
+                "sensors": {"pitot": {"q": mul(var("c"), mul(var("v"), fn("sqrt", powi(var("v"), 2)))), "dx": add(var("x"), mul(num(-1), var("y")))}},
+                "process_noise": {"u": 0.25}, "sensor_noise": {"pitot": {"q": 0.5, "dx": 1.0}},
+                "calibration_map": {"c": 0.75}, "rational": False, "numerics": True})
     return out
 
 
@@ -185,6 +195,11 @@ def assumption_twin_points():
 
 
 def function_coverage_points(d):
+    if d.get("numerics"):
+        base = {"p6": 0.5, "g": 0.25, "sv": 0.125}
+        return [{"dt": 0.125, "state": dict(base, x=1000.001, y=1000.0, v=-2.0), "control": {"u": 0.0}},
+                {"dt": 0.125, "state": dict(base, x=30.0, y=30.0, v=-0.5), "control": {"u": 0.0}},
+                {"dt": 0.125, "state": dict(base, x=-3.25, y=-3.0, v=1.5), "control": {"u": 0.5}}]
     pts = []
     for mval, uval in ((-0.25, 0.5), (-1.5, -0.75), (0.75, 1.25)):
         st = {s: (mval if s == "m" else 0.3125) for s in d["state"]}
